@@ -17,6 +17,7 @@ Inductive dclass :=
 | DefaultDtypeResult.   (* result returned in the default dtype (finding F16e) *)
 
 Definition reviewed_sites : list (string * string * string * dclass) := [
+ ("cheetah/accelerator/segment.py", "Segment.length", "torch.tensor(0.0)", PlaceholderLength);
  ("cheetah/accelerator/element.py", "Element.__init__", "torch.tensor(0.0)", PlaceholderLength);
  ("cheetah/accelerator/screen.py", "Screen.pixel_bin_edges", "torch.linspace( -self.resolution[0] * self.pixel_size[0] / 2, self.resolution[0] * self.pixel_size[0] / 2, int(self.effective_resolution[0]) + 1, )", Float32Grid);
  ("cheetah/accelerator/screen.py", "Screen.pixel_bin_edges", "torch.linspace( -self.resolution[1] * self.pixel_size[1] / 2, self.resolution[1] * self.pixel_size[1] / 2, int(self.effective_resolution[1]) + 1, )", Float32Grid);
